@@ -523,6 +523,9 @@ where
             }
         };
 
+        // remember the client locale for any localized message sent from here on
+        self.client_locale = Some(client_info.locale.clone());
+
         // track client metrics
         metrics::client_locale::inc(client_info.locale.clone());
         metrics::client_view_distance::record(
